@@ -61,6 +61,7 @@ type c22ResSum struct {
 	fresh   bool     // every non-nil returned value is an allocation made by the callee (or by its callees)
 	copyOf  int      // index of the parameter whose pointee was copied into that allocation, -1 if none
 	updates []string // fields of the copy that are stored before it is returned
+	leaks   bool     // the allocation is also stored/passed on inside the callee (it is shared at birth)
 }
 
 type c22Engine struct {
@@ -645,6 +646,7 @@ type c22Origin struct {
 	updates []string
 	root    ssa.Value // the allocation or call that created the object (kind 1)
 	rootIdx int       // component index when root is a tuple-valued call, else -1
+	leaks   bool      // kind 1: the creating function also stores the object / passes it to something that keeps it
 }
 
 // paramIndexOf: is v (after conversions, assertions and one dereference) parameter i of its function?
@@ -749,6 +751,11 @@ func (e *c22Engine) origin(v ssa.Value, ctypes map[int]types.Type, depth int, se
 					}
 				}
 			}
+			for _, u := range e.track([]ssa.Value{x}, nil, x.Type(), ctypes, depth).uses {
+				if u.kind == c22Escape {
+					og.leaks = true
+				}
+			}
 			return og
 		case *ssa.Phi:
 			if seen == nil {
@@ -777,6 +784,7 @@ func (e *c22Engine) origin(v ssa.Value, ctypes map[int]types.Type, depth int, se
 						res.copyOf = -1
 					}
 					res.updates = append(res.updates, og.updates...)
+					res.leaks = res.leaks || og.leaks
 				}
 			}
 			return res
@@ -843,6 +851,7 @@ func (e *c22Engine) callOrigin(call *ssa.Call, idx int, ctypes map[int]types.Typ
 			res.copyOf = -1
 		}
 		res.updates = append(res.updates, rs.updates...)
+		res.leaks = res.leaks || rs.leaks
 	}
 	return res
 }
@@ -888,6 +897,7 @@ func (e *c22Engine) resSum(fn *ssa.Function, idx int, ctypes map[int]types.Type,
 			for _, u := range og.updates {
 				upd[u] = true
 			}
+			s.leaks = s.leaks || og.leaks
 		default:
 			ok = false
 		}
@@ -939,6 +949,9 @@ func (e *c22Engine) storeVerdict(st *ssa.Store, base ssa.Value) c22StoreVerdict 
 	og := e.origin(base, nil, c22MaxDepth, nil)
 	if og.kind != 1 || og.root == nil {
 		return v
+	}
+	if _, local := og.root.(*ssa.Alloc); og.leaks && !local {
+		return v // created by a callee that also registers it somewhere: shared at birth
 	}
 	var roots []ssa.Value
 	tuples := map[ssa.Value]int{}
